@@ -20,3 +20,11 @@ Theorem C15_diff_int : forall hist h x,
   last_out diff_step None (run int_step 0 (hist ++ [h])) (last_out int_step 0 (hist ++ [h]) x) == x.
 Proof. exact diff_int. Qed.
 Print Assumptions C15_diff_int.
+
+(* ---- bridge: the boolean spec evaluated by the correspondence check is satisfied by the model on every input ---- *)
+From Signalo Require Spec.C03 Spec.C04 Spec.C10 Check.Common Check.C15 Proofs.Bridge.
+(* C15: the four machines pass spec_at at every index *)
+Theorem C15_model_passes_boolean_spec : forall k xs n, (k <= 3)%nat -> (n < length xs)%nat ->
+  Signalo.Check.Common.qnth n (Signalo.Check.C15.model k xs) == Signalo.Check.C15.spec_at k xs n.
+Proof. exact Signalo.Proofs.Bridge.bridge_c15. Qed.
+Print Assumptions C15_model_passes_boolean_spec.
